@@ -12,8 +12,10 @@ predicates, every command class's `getResultForOutput` / leading guards of `isRe
 `ExternalCommand::provideValue` (`getSkipValueForInput`), the skip block of `execute`, the process-status
 switch, `Produced[Directory]NodeTask::isResultValid`, the completion lambda of `CommandTask`.
 `LLBuild/Model/FailProp.lean` adds the fold over inputs and the failure count.
-The engine-level consequences (no downstream execution along the closure; re-run next build; convergence)
-are C01/C02/C08 applied to these client facts and are checked end to end by the python oracle.
+The engine-level consequences (no downstream value along the closure; re-run next build; convergence)
+are derived from these client facts in Props/C10Engine.lean (any engine client with the two failure facts, as an
+instance of the engine theorems) and Props/C10Client.lean (the BuildSystem's rule set has them); Props/C10All.lean
+joins the three files.  They are also checked end to end by the python oracle.
 -/
 import LLBuild.Model.FailProp
 
